@@ -36,7 +36,7 @@ ASSUMPTIONS = [
 ]
 REQUIRED_COUNTERS = ['answered_calls_checked_for_pending_writes', 'crash_points_hit', 'boundaries_counted', 'recoveries_checked', 'continue_probes_same_worker',
                      'continue_probes_new_worker', 'atomicity_checks', 'victim_kinds_covered']
-MIN_DISTINCT = {'quick': 300, 'thorough': 3000}
+MIN_DISTINCT = {'quick': 300, 'thorough': 1500}
 
 STUDY = 'owners/o/studies/s'
 
